@@ -1,5 +1,6 @@
 import MobiusModel.Hex
 import MobiusModel.Session
+import MobiusModel.SessionTransfer
 /-!
   Line-protocol front end for the Session / BanGate / readFull / Scan definitions, shared by the
   oracle executables of C02, C04 and C17 (not part of any theorem).  The functions evaluated are the
@@ -152,8 +153,26 @@ def banHistOp : List String → String
     s!"refused={if BanGate.refused s ip (num now) then 1 else 0} entry={e}"
   | _ => "bad-op"
 
+def itemStr : FolderUpload.Item → String
+  | .folder p => s!"d:{toHex p}"
+  | .skipped p => s!"k:{toHex p}"
+  | .sent p b => s!"s:{toHex p}:{toHex b.data}:{toHex b.rsrc}"
+  | .resumed p b => s!"r:{toHex p}:{toHex b.data}:{toHex b.rsrc}"
+
+/-- `folderup <itemCount> <actions: digits 1/2/3, or -> <chunk>*`: the folder-upload item loop. -/
+def folderUpOp : List String → String
+  | n :: acts :: chunks =>
+    let actions := if acts == "-" then [] else acts.toList.map fun ch => ch.toNat - 48
+    let r := FolderUpload.run (num n) actions (chunks.map hexb)
+    match r.1 with
+    | .ok items => s!"ok {items.length}" ++ String.join (items.map fun i => " " ++ itemStr i) ++ s!" rest={toHex r.2.flatten}"
+    | .err => "err"
+    | .panic => "panic"
+  | _ => "bad-op"
+
 def handlers : List (String × (List String → String)) := [
   ("tokens", tokensOp), ("scan", scanOp), ("readfull", readFullOp), ("xpreamble", preambleOp),
+  ("folderup", folderUpOp),
   ("session", sessionOp), ("sessionflat", sessionFlatOp), ("gate", gateOp), ("banhist", banHistOp),
   ("errreply", fun a => match a with
     | [id] => toHex (errReply (num id)).encode
